@@ -327,8 +327,7 @@ def run(ctx):
                              sample={"entry": st["entry"], "features": sorted(feats), "style": style, "spec_verdict": st["verdict"]}
                              if feats == {"extfile", "nested"} else None)
                     arm("secret-verif-xxe")
-                    old = signal.signal(signal.SIGALRM, diskcheck._on_alarm)
-                    signal.alarm(20)
+                    disarm_wd = diskcheck.arm_watchdog(20)
                     tracemalloc.reset_peak()
                     mem0 = tracemalloc.get_traced_memory()[0]
                     verdict, res, err = "parsed", None, ""
@@ -344,8 +343,7 @@ def run(ctx):
                         verdict = "refused"
                         err = f"{type(e).__name__}: {e}"[:200]
                     finally:
-                        signal.alarm(0)
-                        signal.signal(signal.SIGALRM, old)
+                        disarm_wd()
                         disarm()
                         while _OPENED:
                             _OPENED.pop().close()
